@@ -19,6 +19,7 @@ BUILD = os.path.join(os.path.dirname(COQ_DIR), "build")
 
 HEADER = """Require Import Boario.Base.QcLib Boario.Base.Vec Boario.Model.Econ Boario.Corr.Check.
 Require Import Boario.Model.Events Boario.Corr.CheckEv Boario.Model.Init Boario.Model.Tracker Boario.Model.Ingest Boario.Corr.CheckInit.
+Require Import Boario.Model.Create Boario.Corr.CheckCreate.
 Open Scope Qc_scope.
 Definition q (m e : Z) : Qc := of_me m e.
 Arguments q (_ _)%Z.
@@ -172,10 +173,18 @@ def econ_checks(cf, P, init, step, sid, want=None):
         if expr is not None:
             cf.check(tag(ob), expr)
 
-    for key in ("prod_pre", "ord_pre"):
+    for key in ("over_pre", "prod_pre", "ord_pre"):
         if key in step:
             pre_ = step[key]
             guarded("dtot.coherent", lambda: f"chk_dtot {P} {pre_['dem'].shape[1]}%nat {cf.mat(pre_['dem'])} {cf.vec(pre_['dtot'])}")
+    if "prod_pre" in step and step.get("econ_post_events") is not None and (want is None or "phase.overprod" in want):
+        called = "overprod" in step.get("phases", [])
+        try:
+            cf.check([tag("phase.overprod"), tag("phase.alpha_kept")],
+                     f"chk_phase_overprod {P} {t}%nat {'true' if called else 'false'} "
+                     f"{cf.vec(step['econ_post_events']['alpha'])} {cf.vec(step['prod_pre']['alpha'])}")
+        except NonFinite as e:
+            cf.pre.append((tag("phase.overprod"), 4, str(e)))
     if "over_pre" in step and "over_post_alpha" in step:
         pre = step["over_pre"]
         guarded("overprod", lambda: f"chk_overprod {P} {cf.vec(pre['alpha'])} {cf.vec(pre['dtot'])} "
